@@ -815,3 +815,52 @@ def rule_snap_one(ctx, R):
         if len(keyed) > 1:
             R.finding(wfn, "per-key:multiple-acquisitions",
                       "for each key the snapshot reads %s in separate engine calls (separate lock acquisitions): value and TTL of one key can come from different instants (e.g. value before SET, TTL after)" % percall, b.loc(keyed[0][0]))
+
+
+NOW = re.compile(r"^std::time::SystemTime::now$|^std::time::Instant::now$")
+
+
+def rule_deadline_clock(ctx, R):
+    """relative <-> absolute time: a remaining TTL read from a key is turned into the absolute
+    deadline written to the dump (and back at load time) with a clock value read in the same
+    function invocation -- not one cached earlier (snapshot start, struct field, parameter): the
+    TTL was measured when the key was visited, so an older clock value shortens every deadline by
+    the time the snapshot had been running."""
+    sites = 0
+    for fn, b in sorted(ctx.prog.bodies.items()):
+        if not fn.startswith("storage::rdb::") or "::tests::" in fn:
+            continue
+        # the 8-byte write / the Duration built right after the ExpireTimeMs opcode
+        for i, t in b.calls():
+            c = callee(t)
+            val = None; what = None
+            if c == W + "write_u64_le" and len(t["a"]) > 1:
+                val, what = t["a"][1], "deadline written to the dump"
+            elif re.search(r"^std::time::Duration::from_millis$", t["f"] or "") and fn.endswith("read_key_value_with_expiry") and t["a"]:
+                val, what = t["a"][0], "remaining TTL computed at load time"
+            elif re.search(r"^std::vec::Vec::<u8>::extend_from_slice$", t["f"] or "") and fn == EN + "generate_rdb_bytes" and len(t["a"]) > 1:
+                P = prov.operand_origins(b, t["a"][1], deep=True)
+                if P.has_call(r"to_le_bytes$") and (P.has_call(r"SystemTime") or P.has_call(r"as_millis$")):
+                    val, what = t["a"][1], "deadline written to the replication payload"
+            if val is None or op_is_const(val):
+                continue
+            P = prov.operand_origins(b, val, deep=True)
+            if not (P.has_call(r"as_millis$") or P.has_call(r"duration_since$") or P.has_call(NOW.pattern)) and what != "remaining TTL computed at load time":
+                continue
+            sites += 1
+            fresh = P.has_call(NOW.pattern)
+            if not fresh:
+                # `ttl.map(|ttl| SystemTime::now() + ttl)`: the clock is read in a closure that
+                # produces the value
+                for bbi in [r[2] for r in P.roots if r[0] == "call"] + [v[1] for v in P.via]:
+                    for cl in b.term(bbi).get("clos") or []:
+                        cb = ctx.prog.bodies.get(cl)
+                        if cb is not None and any(NOW.search(tc["f"] or "") for _, tc in cb.calls()):
+                            fresh = True
+            cached = sorted(f for f in P.fields if f.startswith("storage::rdb::Rdb") and not f.endswith(".writer") and not f.endswith(".reader"))
+            R.inst(fn, "deadline-clock", {"function": fn, "what": what, "at": b.loc(i), "clock_read_in_this_function": fresh, "cached_fields_involved": cached})
+            if not fresh:
+                R.finding(fn, "deadline-clock:not-read-here",
+                          "the %s (line %d) is computed without reading the clock in %s itself%s: the key's remaining TTL was measured when the key was visited, so a clock value taken earlier moves every deadline by the time elapsed in between" % (
+                              what, b.bb_line(i), fn.split("::")[-1], (" (uses %s)" % ", ".join(c_.rsplit(".", 1)[-1] for c_ in cached)) if cached else ""), b.loc(i))
+    R.floor("deadline_conversions", sites)
